@@ -1,0 +1,33 @@
+//go:build verif
+
+// Contracts for the CLI commands, checked by /verif/govc (comment-only; compiled only with -tags verif).
+// libReport / libRegoCode / libNormalized / libEncode name the library's results as functions of its inputs (spec/c18.smt2).
+package commands
+
+//@ prelude c18
+
+//@ func Validate()
+//@   requires exitCode < 0
+//@   ensures [C18:exits] exitCode >= 0
+//@   ensures [C18:failure-is-silent] exitCode != 0 ==> stdout == old(stdout)
+//@   ensures [C18:failure-status] libReportErr(fileText(os.Args[2]), fileText(os.Args[3])) != nil ==> exitCode != 0
+//@   ensures [C18:stdout] exitCode == 0 && len(os.Args) == 4 ==> stdout == old(stdout) + libReport(fileText(os.Args[2]), fileText(os.Args[3])) + "\n"
+//@   ensures [C18:file] exitCode == 0 && len(os.Args) == 5 ==> (fsContent == libReport(fileText(os.Args[2]), fileText(os.Args[3])) && stdout == old(stdout))
+
+//@ func Generate()
+//@   requires exitCode < 0
+//@   ensures [C18:exits] exitCode >= 0
+//@   ensures [C18:failure-is-silent] exitCode != 0 ==> stdout == old(stdout)
+//@   ensures [C18:failure-status] libRegoErr(fileText(os.Args[2])) != nil ==> exitCode != 0
+//@   ensures [C18:stdout] exitCode == 0 ==> stdout == old(stdout) + libRegoCode(fileText(os.Args[2])) + "\n"
+
+//@ func Normalize()
+//@   requires exitCode < 0
+//@   ensures [C18:exits] exitCode >= 0
+//@   ensures [C18:failure-is-silent] exitCode != 0 ==> stdout == old(stdout)
+//@   ensures [C18:failure-status] libNormalizedErr(fileText(os.Args[2])) != nil ==> exitCode != 0
+//@   ensures [C18:stdout] exitCode == 0 ==> stdout == old(stdout) + libEncode(libNormalized(fileText(os.Args[2]))) + "\n"
+
+//@ func Compile()
+//@   requires exitCode < 0
+//@   ensures [C18:exits] exitCode >= 0
